@@ -28,6 +28,8 @@ const MIN_FINAL_CLTV_EXPIRY_DELTA: u32 = 42;
 pub enum Case {
 	/// secret with one bit flipped (None = genuine secret)
 	Secret { flip: Option<u16> },
+	/// payment secret with two bits flipped (thorough tier: every pair)
+	Secret2 { a: u16, b: u16 },
 	/// secret issued for another payment hash
 	SecretOfOtherHash,
 	/// secret issued for the same hash but a larger minimum amount
@@ -155,12 +157,17 @@ pub fn run_case(c: &Case) -> Result<CaseResult, (String, String)> {
 		}
 	};
 	match c {
-		Case::Secret { .. } | Case::SecretOfOtherHash | Case::SecretOfLargerAmount | Case::Expired { .. } => {
+		Case::Secret { .. } | Case::Secret2 { .. } | Case::SecretOfOtherHash | Case::SecretOfLargerAmount | Case::Expired { .. } => {
 			let mut secret = register(&mut w, hash, Some(m), if matches!(c, Case::Expired { .. }) { 1 } else { 7200 });
 			let genuine;
 			match c {
 				Case::Secret { flip: None } => genuine = true,
 				Case::Secret { flip: Some(b) } => {
+					secret.0[(*b / 8) as usize] ^= 1 << (*b % 8);
+					genuine = false;
+				},
+				Case::Secret2 { a, b } => {
+					secret.0[(*a / 8) as usize] ^= 1 << (*a % 8);
 					secret.0[(*b / 8) as usize] ^= 1 << (*b % 8);
 					genuine = false;
 				},
@@ -572,22 +579,32 @@ pub fn cases(tier: Tier) -> Vec<Case> {
 	for b in 0..256u16 {
 		v.push(Case::Secret { flip: Some(b) });
 	}
+	if th {
+		for a in 0..256u16 {
+			for b in (a + 1)..256u16 {
+				v.push(Case::Secret2 { a, b });
+			}
+		}
+	}
 	v.push(Case::SecretOfOtherHash);
 	v.push(Case::SecretOfLargerAmount);
-	for blocks in [0u32, 11, 12, 13, 14, 20] {
+	let expired: Vec<u32> = if th { (0..=24).collect() } else { vec![0, 11, 12, 13, 14, 20] };
+	for blocks in expired {
 		v.push(Case::Expired { blocks });
 	}
-	for d in [-1000i64, -1, 0, 1, 50_000_000] {
-		for s in [-1i64, 0, 1] {
+	let (ds, ss): (Vec<i64>, Vec<i64>) = if th { (vec![-50_000, -1000, -2, -1, 0, 1, 2, 1000, 50_000_000], vec![-1000, -2, -1, 0, 1, 2, 1000]) } else { (vec![-1000, -1, 0, 1, 50_000_000], vec![-1, 0, 1]) };
+	for d in ds {
+		for s in ss.iter().copied() {
 			v.push(Case::Amount { declared_minus_min: d, sent_minus_declared: s });
 		}
 	}
-	for delta in (HTLC_FAIL_BACK_BUFFER - 4)..=(MIN_FINAL_CLTV_EXPIRY_DELTA + 4) {
+	let cltvs: Vec<u32> = if th { (0..=(MIN_FINAL_CLTV_EXPIRY_DELTA + 40)).collect() } else { ((HTLC_FAIL_BACK_BUFFER - 4)..=(MIN_FINAL_CLTV_EXPIRY_DELTA + 4)).collect() };
+	for delta in cltvs {
 		v.push(Case::Cltv { delta });
 	}
 	// claim height sweep around the deadline (delta 60 → window of ~21 blocks)
-	let sweep: Vec<u32> = if th { (0..=26).collect() } else { vec![0, 1, 10, 18, 19, 20, 21, 22, 23] };
-	for delta in if th { vec![46u32, 60] } else { vec![60u32] } {
+	let sweep: Vec<u32> = if th { (0..=45).collect() } else { vec![0, 1, 10, 18, 19, 20, 21, 22, 23] };
+	for delta in if th { vec![43u32, 46, 50, 60, 80] } else { vec![60u32] } {
 		for b in sweep.iter() {
 			v.push(Case::ClaimAt { delta, blocks: *b });
 		}
